@@ -4,6 +4,7 @@ import (
 	"fmt"
 	"math"
 	"math/big"
+	"strings"
 	"testing"
 
 	"pgregory.net/rapid"
@@ -62,6 +63,9 @@ func genBucketing(t *rapid.T) Case {
 			v = 0
 		}
 		val := itoa(v)
+		if v >= 0 && rapid.IntRange(0, 7).Draw(t, "pad") == 0 {
+			val = strings.Repeat("0", rapid.IntRange(1, 3).Draw(t, "zeros")) + val
+		}
 		if nonNum {
 			val = genNonNumeric(t, "nn")
 		}
@@ -128,6 +132,9 @@ func genBucketing(t *rapid.T) Case {
 			v = 1
 		}
 		val := itoa(v)
+		if rapid.IntRange(0, 5).Draw(t, "pad") == 0 {
+			val = strings.Repeat("0", rapid.IntRange(1, 3).Draw(t, "zeros")) + val
+		}
 		if nonNum {
 			val = genNonNumeric(t, "nn")
 		}
@@ -146,10 +153,35 @@ func bucketBounds(v, s int64) (lo, hi *big.Int) {
 	return
 }
 
+// unpad: a zero-padded decimal integer ("007", "0099") - as log fields often
+// are - denotes the number without the padding (rare reads integers in base
+// 10 everywhere: {sumi 010 1} is 11).
+func unpad(s string) (string, bool) {
+	if len(s) < 2 || s[0] != '0' {
+		return s, false
+	}
+	for _, r := range s {
+		if r < '0' || r > '9' {
+			return s, false
+		}
+	}
+	t := strings.TrimLeft(s, "0")
+	if t == "" {
+		t = "0"
+	}
+	return t, true
+}
+
 func checkBucketing(c Case) error {
 	v := c.vals()
 	if len(v) < 1 {
 		return fmt.Errorf("harness: no arguments")
+	}
+	if c.Fn != "clamp" {
+		if u, ok := unpad(v[0]); ok {
+			v[0] = u
+			c.Obs.Label(true, "zero-padded-value")
+		}
 	}
 	if !isCanonInt(v[0]) {
 		if !clearlyNonNumeric(v[0]) {
